@@ -747,11 +747,14 @@ fn sa_type_to_syn_type(type_ref: &Type) -> anyhow::Result<syn::Type> {
 
 const MAX_WRITTEN_TYPE_NESTING: usize = 32;
 
-/// How deep the parser has to descend into `written`: open brackets, plus the pointers and
-/// references that apply to what is being read (up to the next comma or closing bracket).
+/// An upper bound for how deep the parser has to descend into `written`: open brackets of
+/// any kind, plus whatever applies to the rest of the current element (up to the next comma
+/// or closing bracket). In a well-formed type that is pointers and references; module path
+/// segments are file names, though, so anything can turn up here, and every character that
+/// is not part of a name, a path or a list is counted as if it were one of those.
 fn written_type_nesting(written: &str) -> usize {
-    // One entry per open bracket (and one for the top level): the pointers and references
-    // seen since the last comma at that level.
+    // One entry per open bracket (and one for the top level): what has been seen of the
+    // current element at that level.
     let mut prefixes = vec![0usize];
     let mut deepest = 0usize;
     let mut previous = ' ';
@@ -761,15 +764,17 @@ fn written_type_nesting(written: &str) -> usize {
         match c {
             // (the `>` of a function type's `->` closes nothing)
             _ if arrow => continue,
-            '<' | '[' | '(' => prefixes.push(0),
-            '>' | ']' | ')' => {
+            '<' | '[' | '(' | '{' => prefixes.push(0),
+            '>' | ']' | ')' | '}' => {
                 if prefixes.len() > 1 {
                     prefixes.pop();
                 }
             }
             ',' | ';' => *prefixes.last_mut().unwrap() = 0,
-            '*' | '&' => *prefixes.last_mut().unwrap() += 1,
-            _ => continue,
+            c if c.is_alphanumeric() || matches!(c, '_' | ':' | ' ' | '"' | '#' | '.' | '\'') => {
+                continue
+            }
+            _ => *prefixes.last_mut().unwrap() += 1,
         }
         let depth = prefixes.len() - 1 + prefixes.iter().sum::<usize>();
         deepest = deepest.max(depth);
